@@ -43,6 +43,11 @@ FAMILIES = {
     "kern-nogroups": dict(n_axes=1, layout="onaxis", n_glyphs=10, composites=0.0, kern=dict(pairs=30, groups=False, partial=0.3)),
     "kern-exceptions": dict(n_axes=2, layout="onaxis", n_glyphs=14, composites=0.0, kern=dict(pairs=40, exceptions=0.8, divergent=0.5, partial=0.2)),
     "kern-3x3": dict(n_axes=2, layout="mixed", n_glyphs=12, composites=0.0, kern=dict(pairs=30, divergent=0.6, partial=0.3)),
+    "names-static": dict(n_axes=0, n_glyphs=4, composites=0.0, post=lambda m, r: M.naming(m, r)),
+    "names-var1": dict(n_axes=1, layout="onaxis", n_glyphs=4, composites=0.0, mapped=0.3, post=lambda m, r: M.naming(m, r)),
+    "names-var2": dict(n_axes=2, layout="onaxis", n_glyphs=4, composites=0.0, mapped=0.3, post=lambda m, r: M.naming(m, r)),
+    "names-var1-collide": dict(n_axes=1, layout="onaxis", n_glyphs=4, composites=0.0, mapped=0.0, post=lambda m, r: M.naming(m, r, collide=0.95, fea=0.8)),
+    "names-twin": dict(n_axes=1, layout="onaxis", n_glyphs=3, composites=0.0, mapped=0.0, post=lambda m, r: M.naming(m, r, collide=0.5, fea=0.2, twin=True)),
     "marks-static": dict(n_axes=0, n_glyphs=8, composites=0.0, marks=dict(n_groups=2)),
     "marks-var1": dict(n_axes=1, layout="onaxis", n_glyphs=8, composites=0.0, marks=dict(n_groups=3, n_marks=4)),
     "marks-var2": dict(n_axes=2, layout="corners", n_glyphs=8, composites=0.0, marks=dict(n_groups=2, n_ligs=2, mkmk=0.9)),
@@ -62,6 +67,7 @@ BY_PROPERTY = {
     "C12": ["c12-nested-scale", "c12-nested-rotate", "c12-nonexport-sparse", "c12-mixed-static", "c12-overflow", "var2-nested-xform"],
     "C09": ["kern-static", "kern-var1", "kern-divergent", "kern-many", "kern-intermediate", "kern-nogroups", "kern-exceptions", "kern-3x3"],
     "C10": ["marks-static", "marks-var1", "marks-var2", "marks-intermediate", "marks-multi"],
+    "C18": ["names-var1", "names-var2", "names-static", "names-var1-collide", "names-twin", "names-var1-collide"],
     "C14": ["var1-noorder", "var2-mixed-sparse", "var1-mixedglyphs", "kern-var1", "kern-intermediate", "kern-divergent"],
 }
 
